@@ -56,7 +56,7 @@ struct Explorer {
     using Index = pgm::MultidimensionalPGMIndex<D, T, E, R>;
     using P = Pt<D, T>;
     Run &run; Cn &cn; int prop; const char *cfg;
-    int input_order = 0;   // 0: enumeration order, 1: lexicographic, 2: reverse lexicographic
+    int input_order = 0;   // 0: enumeration order, 1: lexicographic, 2: reverse lexicographic, 3: range of std::pair (D = 2), 4: tuples of a narrower unsigned type
 
     // spec of a multiset: "cells=<pt>*<mult>;<pt>*<mult>;..."
     static std::string spec_str(const std::vector<std::pair<P, int>> &cells) {
@@ -89,7 +89,19 @@ struct Explorer {
             if constexpr (D == 2) {
                 if (input_order == 3) { std::vector<std::pair<T, T>> prs; for (auto &p : ordered) prs.emplace_back(p[0], p[1]); b.idx = new Index(prs.begin(), prs.end()); }   // a range of std::pair is a documented input too
                 else b.idx = new Index(tuples.begin(), tuples.end());
-            } else b.idx = new Index(tuples.begin(), tuples.end());
+            } else if (input_order != 4) b.idx = new Index(tuples.begin(), tuples.end());
+            if (input_order == 4) {   // tuples holding a narrower unsigned type (the constructor is a template over the iterator): same points, same index
+                using N = uint32_t;   // 32-bit coordinates handed to a 64-bit index; for a 32-bit index this order is the same as order 0
+                bool fits = true;
+                for (auto &p : ordered) for (size_t i = 0; i < D; ++i) if (p[i] > T(std::numeric_limits<N>::max())) fits = false;
+                if (!fits) { if (!b.idx) b.idx = new Index(tuples.begin(), tuples.end()); }
+                else {
+                    delete b.idx; b.idx = nullptr;
+                    std::vector<decltype(to_tuple<D, N>(Pt<D, N>{}))> nt;
+                    for (auto &p : ordered) { Pt<D, N> q; for (size_t i = 0; i < D; ++i) q[i] = N(p[i]); nt.push_back(to_tuple<D, N>(q)); }
+                    b.idx = new Index(nt.begin(), nt.end());
+                }
+            }
         }
         catch (const std::exception &e) { run.violation(case_of(spec, ""), std::string("construction over encodable points threw: ") + e.what()); return false; }
         b.sorted.clear();
@@ -240,7 +252,8 @@ struct Explorer {
             std::vector<std::pair<P, int>> spec_cells;
             for (size_t i = 0; i < C; ++i) spec_cells.emplace_back(cells[i], mults[digit[i]]);
             std::string spec = spec_str(spec_cells);
-            for (input_order = 0; input_order < (D == 2 ? 4 : 3); ++input_order) {
+            for (input_order = 0; input_order < 5; ++input_order) {
+                if (input_order == 3 && D != 2) continue;
                 Built b{};
                 if (build(spec_cells, spec, b)) {
                     if (!sampled && digit[C - 1] == 2 && digit[C - 2] == 1) { run.sample(case_of(spec, "*all boxes over the axis values*")); sampled = true; }
@@ -271,7 +284,7 @@ struct Explorer {
         });
         std::string spec = "grid" + std::to_string(G);
         for (auto &w : window) spec += ";" + pt_str<D, T>(w.first) + "*" + std::to_string(w.second);
-        input_order = int(lo0 % 3);   // the grid's boxes are split over tasks by lo0: vary the input order across them
+        input_order = (lo0 % 4 == 3) ? 4 : int(lo0 % 4);   // the grid's boxes are split over tasks by lo0: vary the input order across them
         Built b{};
         if (!build(cells, spec, b)) { input_order = 0; return; }
         if (lo0 == 0) run.sample(case_of(spec, "*all boxes*"));
@@ -552,7 +565,11 @@ int main(int argc, char **argv) {
         }
         // (a) multiplicity vectors {0,1,65}^cells over axis^D; split by the first two digits
         if (D <= 3)
-            for (int axis_id = 0; axis_id < (thorough ? 3 : (D == 2 && c == 0 ? 3 : 1)); ++axis_id) {
+            for (int axis_id = 0; axis_id < 3; ++axis_id) {
+                // quick: the small axis for every configuration, all three for the first 2D one, and the axis that reaches the largest
+                // encodable coordinate for every 64-bit configuration (there 32-bit input tuples still hold it: input order 4)
+                bool wide = strstr(cfgs[c].name, "u64") != nullptr;
+                if (!thorough && axis_id > 0 && !(D == 2 && c == 0) && !(wide && axis_id == 2)) continue;
                 if (asan && !thorough && axis_id > 0) continue;
                 for (int a = 0; a < 3; ++a) for (int b = 0; b < 3; ++b) { Task t{int(c), 0, {a, b}, axis_id, 0, 0, {}}; tasks.push_back(t); }
             }
